@@ -9,7 +9,9 @@ EXPLANATION = (
     "public scheduling API into FutureEventSet::add is guarded by `time >= L` (panic otherwise) where L is initialised "
     "from the start time and follows every dispatched event — on both event-set back ends; (R5) SimTime::now() rebuilds exactly what "
     "SimTime::set_now() stored (matching cells, no narrowing cast). "
-    "(R6) the calendar queue's insertion guard compares against the field fetch_next sets to the emitted event's time (not the coarser bucket-window start). Decides these necessary conditions only; monotonicity over a run additionally needs the event set's order (C01, not decided).")
+    "(R6) the calendar queue's insertion guard compares against the field fetch_next sets to the emitted event's time (not the coarser bucket-window start). "
+    '(R7) Runtime::add_event_in schedules at the current simulation clock + the given duration (SimTime::now at the call, no other base time). '
+    "Decides these necessary conditions only; monotonicity over a run additionally needs the event set's order (C01, not decided).")
 ASSUMPTIONS = ["atomic stores/loads behave as documented; the clock static is only reachable through its def path"]
 USES_B = True
 ALWAYS_B = False
